@@ -155,7 +155,9 @@ Setup ==
        \/ cfg.labels # "" /\ cfg.fail = 0 - 1 /\ \E v \in {0, 0 - 2} : cfg' = [cfg EXCEPT !.fail = v] /\ UNCHANGED <<phase, dur>>
        \/ cfg.fail = 0 - 2 /\ \E v \in 1..cfg.n : cfg' = [cfg EXCEPT !.fail = v] /\ UNCHANGED <<phase, dur>>
        \/ cfg.fail > 0 /\ cfg.failmode = "" /\ \E v \in FailModes :
-                (v = "nosteady" => IsSteady(cfg.kind)) /\ cfg' = [cfg EXCEPT !.failmode = v] /\ UNCHANGED <<phase, dur>>
+                (v = "nosteady" => IsSteady(cfg.kind))
+                /\ (v = "latestep" => cfg.kind \in {"protocol", "protocol_time_course"})   \* fails in a LATER protocol step
+                /\ cfg' = [cfg EXCEPT !.failmode = v] /\ UNCHANGED <<phase, dur>>
        \/ cfg.fail >= 0 /\ (cfg.fail > 0 => cfg.failmode # "") /\ Timed /\ Len(dur) < cfg.n
                 /\ \E d \in 1..MaxDur : dur' = Append(dur, d) /\ UNCHANGED <<cfg, phase>>
        \/ cfg.fail >= 0 /\ (cfg.fail > 0 => cfg.failmode # "") /\ (Timed => Len(dur) = cfg.n)
